@@ -1438,8 +1438,10 @@ class ListNode(SyntaxNodeBase):
 
         Some callers (e.g. the data-block importances) collect *copies* of the nodes of this list.
         No shortcut can be bound to a copy, and the original tokens, paddings and comments would all be
-        replaced. If none of the new nodes is a node of this list, every position that still holds exactly
-        the value (and type) of the original node at that position keeps the original node.
+        replaced. A new node that is not a node of this list is replaced by the original node at its position
+        when that one still holds exactly the same value (and type) and is not handed in itself.
+        The decision is made position by position, so that doing it again after the list has been rebuilt
+        (a second write) gives the same list.
 
         :param new_vals: the new values (a list of ValueNodes)
         :type new_vals: list
@@ -1448,12 +1450,14 @@ class ListNode(SyntaxNodeBase):
         """
         own = list(self)
         own_ids = {id(node) for node in own}
-        if any(id(val) in own_ids for val in new_vals):
-            return new_vals
+        new_ids = {id(val) for val in new_vals}
         ret = []
         for i, val in enumerate(new_vals):
             if (
-                i < len(own)
+                id(val) not in own_ids
+                and i < len(own)
+                # the original node is not handed in itself (at this or another position)
+                and id(own[i]) not in new_ids
                 and isinstance(own[i], ValueNode)
                 and own[i].type == val.type
                 and own[i].value == val.value
